@@ -370,10 +370,10 @@ func (e *Engine) mergeFlowResult() *FuncResult {
 // AsCompilerPass method; every field of the YAML struct must be read by that method (a field that is
 // parsed and then ignored makes the transformation silently do something else than configured).
 // Structural obligation over go/ssa, one per (type, field).
-func (e *Engine) yamlCarriedResult() *FuncResult {
+func (e *Engine) yamlCarriedResult(methods map[string]bool, tag string) *FuncResult {
 	ctx := newCtx(e, e.anyFunction())
-	ctx.fnKey = "c15-yaml-carried"
-	res := &FuncResult{Key: "c15-yaml-carried", Ctx: ctx}
+	ctx.fnKey = tag + "-yaml-carried"
+	res := &FuncResult{Key: tag + "-yaml-carried", Ctx: ctx}
 	var keys []string
 	for k := range e.fnByKey {
 		keys = append(keys, k)
@@ -382,7 +382,7 @@ func (e *Engine) yamlCarriedResult() *FuncResult {
 	n := 0
 	for _, k := range keys {
 		fn := e.fnByKey[k]
-		if !strings.HasPrefix(k, "yaml.") || fn.Name() != "AsCompilerPass" || fn.Signature.Recv() == nil || len(fn.Params) == 0 || fn.Synthetic != "" {
+		if !strings.HasPrefix(k, "yaml.") || !methods[fn.Name()] || fn.Signature.Recv() == nil || len(fn.Params) == 0 || fn.Synthetic != "" {
 			continue
 		}
 		rt := fn.Signature.Recv().Type()
@@ -393,7 +393,7 @@ func (e *Engine) yamlCarriedResult() *FuncResult {
 		}
 		st, ok := rt.Underlying().(*types.Struct)
 		nt, isNamed := rt.(*types.Named)
-		if !ok || !isNamed || nt.Obj().Name() == "CompilerPass" {
+		if !ok || !isNamed || nt.Obj().Name() == "CompilerPass" || nt.Obj().Name() == "BuilderRule" || nt.Obj().Name() == "OptionRule" || nt.Obj().Name() == "BuilderSelector" || nt.Obj().Name() == "OptionSelector" {
 			continue
 		}
 		recv := fn.Params[0]
@@ -436,10 +436,10 @@ func (e *Engine) yamlCarriedResult() *FuncResult {
 		}
 		for i := 0; i < st.NumFields(); i++ {
 			n++
-			ctx.addOblig("flow", "yaml."+nt.Obj().Name()+".AsCompilerPass:field-"+st.Field(i).Name()+"-is-carried-into-the-pass", BoolLit(whole || read[i]), "internal/yaml/compilerpasses.go")
+			ctx.addOblig("flow", "yaml."+nt.Obj().Name()+"."+fn.Name()+":field-"+st.Field(i).Name()+"-is-carried-into-the-pass", BoolLit(whole || read[i]), "internal/yaml")
 		}
 	}
-	ctx.addOblig("flow", "yaml:AsCompilerPass-methods-enumerated", BoolLit(n > 0), fmt.Sprint(n))
+	ctx.addOblig("flow", "yaml:conversion-methods-enumerated", BoolLit(n > 0), fmt.Sprint(n))
 	res.Obligs = ctx.obligs
 	return res
 }
